@@ -69,36 +69,7 @@ func applySession(session int, m *bgp.BGPMessage, o *bgp.MarshallingOption) {
 		return
 	}
 	o.Use2ByteAS = true
-	u, ok := m.Body.(*bgp.BGPUpdate)
-	if !ok {
-		return
-	}
-	// what the sender does for such a peer (table.UpdatePathAttrs2ByteAs): 2-octet AS_PATH segments and
-	// AGGREGATOR, AS_TRANS for the numbers that do not fit
-	trans := func(as uint32) uint16 {
-		if as > 65535 {
-			return bgp.AS_TRANS
-		}
-		return uint16(as)
-	}
-	for i, a := range u.PathAttributes {
-		switch v := a.(type) {
-		case *bgp.PathAttributeAsPath:
-			var ps []bgp.AsPathParamInterface
-			for _, p := range v.Value {
-				l := p.GetAS()
-				as := make([]uint16, len(l))
-				for j := range l {
-					as[j] = trans(l[j])
-				}
-				ps = append(ps, bgp.NewAsPathParam(p.GetType(), as))
-			}
-			u.PathAttributes[i] = bgp.NewPathAttributeAsPath(ps)
-		case *bgp.PathAttributeAggregator:
-			n, _ := bgp.NewPathAttributeAggregator(trans(v.Value.AS), v.Value.Address)
-			u.PathAttributes[i] = n
-		}
-	}
+	verifgen.FitTo2ByteAS(m)
 }
 
 func drawRecipe(max int) func(t *rapid.T) recipeCase {
